@@ -25,7 +25,8 @@ def b2s (b : Bool) : String := if b then "1" else "0"
 def step (st : St) (toks : List String) : St × Option String :=
   match toks with
   | ["cfg", h, a] => ({ st with handle := parseConds h, abort := parseConds a }, none)
-  | ["o", v, e] =>
+  | [op, v, e] =>
+    if op != "o" && op != "oh" then (st, some "bad-op") else
     match parseErr e with
     | none => (st, some "bad-tree")
     | some err =>
@@ -38,7 +39,7 @@ def step (st : St) (toks : List String) : St × Option String :=
       let rp := if !f then "F0" else if ab then "F1A1" else "F1A0"
       let hp := isCancellable st.abort o
       ({ st with nontrivial := st.nontrivial + (if f || ab then 1 else 0) },
-       some s!"fb={b2s f} cb={b2s f} cr={b2s fr} rp={rp} hp={b2s hp}")
+       some s!"fb={b2s f} cb={b2s f} cr={b2s fr} rp={rp} hp={if op == "oh" then b2s hp else "-"}")
   | _ => (st, some "bad-op")
 
 end Driver.Classify
